@@ -111,6 +111,10 @@ def shape_flags(prog):
                 flags.add("loop-filter-mentions-assigned-variable")
             if e == "try" and in_gen:
                 flags.add("try-in-generator")
+            if e == "seq" and in_gen and any(isinstance(y, dict) and y.get("e") == "call" and 0 < y.get("fi", 0) <= len(prog["funs"])
+                                             and isinstance(prog["funs"][y["fi"] - 1]["rt"], list)
+                                             and prog["funs"][y["fi"] - 1]["rt"][0] == "tup" for y in x.get("es", [])[:-1] + x.get("es", [])[-1:]):
+                flags.add("multi-value-call-discarded-in-generator")
             if e == "try" and nested and any(h.get("ps") for h in x.get("hs", [])):
                 flags.add("payload-read-in-nested-try")
             if e == "try" and any(has_try(v) for k_, v in x.items() if k_ in ("body", "hs", "fin")):
